@@ -29,13 +29,20 @@ of the addressed occurrences removed at every depth". Here:
                                                `p`; the open statement of PathUnique is FALSE as it stands
   8b. `copyToFields_prune`, `copyTo_prune`, `copyFromFields_prune`, `copyFrom_prune`, `schemaAttrs_pruneFs`,
       `schema_excluded_absent`, `schemaOf_prune`, `built_plain`, `exclusion_surgical_root`
-                                               semantics at the level of the excluded field (any depth: the statements
-                                               are about the field list that contains it and hold for every start state)
+                                               schema and converters at the level of the excluded field (the statements
+                                               are about the field list that contains it and hold for every start state):
+                                               the excluded attribute / Go field is not touched, all others are equal
       `copyToField_pruneF`, `copyFromField_pruneF`, `schemaField_pruneF`
                                                above that level: the same block over the pruned recursive call
-      `copyTo_prune_deep_full`, `copyFrom_prune_deep_full`
-                                               OPEN: the composition of the two (a congruence of the block functions in
-                                               their recursive call, for "equal except under the excluded attribute")
+  8c. `copyToFieldWith_rel`, `fieldWith_frel`  congruence of the block functions in their recursive call, for the
+                                               relations `OffV D` / `OffG D` "equal except under the attributes / Go
+                                               fields named in `D`, at any depth"
+      `copyToFields_deep`, `copyFromFields_deep`, `copyTo_prune_deep`, `copyFrom_prune_deep`, `exclusion_surgical_deep`
+                                               converters of the pruned message, excluded field at ANY depth: they succeed
+                                               whenever the unpruned ones do, with results that agree except under the
+                                               excluded attribute / Go field (CopyTo: attribute names pairwise distinct
+                                               per level, no nested message emptied; CopyFrom: no side condition beyond
+                                               "no embedded fields")
   9. `Example`                                 the statement checked by evaluation on concrete trees (two levels down, in a
                                                list element message, in a map value message, oneof branches, placeholder,
                                                sorting); `typeName_key_needed`, `noEmbed_needed`, `success_needed`: the
@@ -1396,17 +1403,14 @@ theorem exclusion_surgical_root (cfg : Config) (p : String) (req : Request) (des
     fun obj tf r1 h => copyTo_prune p m hl hs obj tf r1 h,
     fun ov tf obj r1 h => copyFrom_prune ov p m hl hplain tf obj r1 h⟩
 
-/-! ### OPEN: the behavioural statement at every depth
+/-! ## 8c. the behavioural statement at every depth
 
 For an excluded field BELOW a surviving field `f` of `m`, the value the converters produce under `f` differs - exactly in
-the excluded attribute / Go field, some levels down. What is proved: the IR is `prune p m` (`exclusion_prunes`), hence
-the block of every surviving field is the same block function over the pruned recursive call (`copyToField_pruneF`,
-`copyFromField_pruneF`), and at the level that contains the excluded node the pruned block list behaves as stated
-(`copyToFields_prune`, `copyFromFields_prune`, for ANY start state, so also for the recursive calls).
-What is NOT proved is the composition of the two: a congruence of `copyToFieldWith` / `copyFromFieldWith` in their
-recursive call `rec`, for a relation on nested Terraform / Go values "equal except under the excluded attribute" (the
-analogue, for a relation, of `objBody_wo` / `copyToElemsList_wo` / `listOrMapBody_act` / `copyToFieldWith_act` in
-ToCongr.lean and of `fieldWith_uf` in OrderIndep.lean). The statement for CopyTo, with the relation spelled out: -/
+the excluded attribute / Go field, some levels down. The relations `OffV D` / `OffG D` say "equal except under the object
+attributes / struct fields named in `D`, at any depth"; `D` is instantiated with the attribute names (Go fields) of the
+removed nodes. The proof composes the statement at the level of the excluded node with a congruence of the block
+functions `copyToFieldWith` / `copyFromFieldWith` in their recursive call (`copyToFieldWith_rel`, `fieldWith_frel`), by
+mutual induction over the IR (`copyToFields_deep`, `copyFromFields_deep`). -/
 
 /-- Terraform values that agree except under the object attributes named in `D`, at any depth -/
 inductive OffV (D : List String) : TfVal → TfVal → Prop
@@ -1431,23 +1435,6 @@ def allDroppedAttrs (p : String) : List Field → List String
   | [] => []
   | f :: fs => (if dropped p f.info then [f.info.nameSnake] else allDroppedAttrsF p f) ++ allDroppedAttrs p fs
 end
-
-mutual
-/-- side conditions at every depth: attribute names of dropped and surviving siblings are separate, and no message loses
-its last field (the emitted code branches on "the nested message has no fields") -/
-def deepOkF (p : String) : Field → Bool
-  | ⟨_, _, _, sub⟩ => ((pruneFs p sub).isEmpty == sub.isEmpty) && attrsSeparate p sub && deepOkFs p sub
-def deepOkFs (p : String) : List Field → Bool
-  | [] => true
-  | f :: fs => (dropped p f.info || deepOkF p f) && deepOkFs p fs
-end
-
-/-- OPEN (not proved, not used): `CopyToTerraform` of the pruned message, excluded field at any depth. -/
-def copyTo_prune_deep_full : Prop :=
-  ∀ (p : String) (m : Msg) (obj : GoVal) (tf : TfVal) (r1 : ToResult),
-    attrsSeparate p m.fields = true → deepOkFs p m.fields = true →
-    copyTo m obj tf = .ok r1 →
-    ∃ r2, copyTo (prune p m) obj tf = .ok r2 ∧ OffV (allDroppedAttrs p m.fields) r1.tf r2.tf
 
 /-- Go values that agree except in the struct fields named in `D`, at any depth -/
 inductive OffG (D : List String) : GoVal → GoVal → Prop
@@ -1475,12 +1462,1153 @@ def allDroppedGo (p : String) : List Field → List String
   | f :: fs => (if dropped p f.info then [OrderIndep.wk f.info] else allDroppedGoF p f) ++ allDroppedGo p fs
 end
 
-/-- OPEN (not proved, not used): `CopyFromTerraform` of the pruned message, excluded field at any depth. -/
-def copyFrom_prune_deep_full : Prop :=
-  ∀ (ov : List (String × String)) (p : String) (m : Msg) (tf : TfVal) (obj : GoVal) (r1 : FromResult),
-    plainFs m.fields = true → deepOkFs p m.fields = true →
-    copyFrom ov m tf obj = .ok r1 →
-    ∃ r2, copyFrom ov (prune p m) tf obj = .ok r2 ∧ OffG (allDroppedGo p m.fields) r1.obj r2.obj
+/-! ### CopyTo -/
+
+def AttrsOff (D : List String) (A A' : List (String × TfVal)) : Prop :=
+  (∀ key, key ∉ D → (A.lookup key).isSome = (A'.lookup key).isSome) ∧
+  (∀ key v v', key ∉ D → A.lookup key = some v → A'.lookup key = some v' → OffV D v v')
+
+def ListOff (D : List String) (es es' : List TfVal) : Prop :=
+  es.length = es'.length ∧ ∀ (i : Nat) v v', es[i]? = some v → es'[i]? = some v' → OffV D v v'
+
+def MapOff (D : List String) (es es' : List (String × TfVal)) : Prop :=
+  (∀ key, (es.lookup key).isSome = (es'.lookup key).isSome) ∧
+  (∀ key v v', es.lookup key = some v → es'.lookup key = some v' → OffV D v v')
+
+theorem AttrsOff.refl (D : List String) (A : List (String × TfVal)) : AttrsOff D A A :=
+  ⟨fun _ _ => rfl, fun _ v v' _ h h' => by rw [h] at h'; injection h' with h'; subst h'; exact .refl v⟩
+
+theorem ListOff.refl (D : List String) (es : List TfVal) : ListOff D es es :=
+  ⟨rfl, fun _ v v' h h' => by rw [h] at h'; injection h' with h'; subst h'; exact .refl v⟩
+
+theorem MapOff.refl (D : List String) (es : List (String × TfVal)) : MapOff D es es :=
+  ⟨fun _ => rfl, fun _ v v' h h' => by rw [h] at h'; injection h' with h'; subst h'; exact .refl v⟩
+
+theorem ListOff.set {D : List String} {es es' : List TfVal} (h : ListOff D es es') (k : Nat) {v v' : TfVal}
+    (hv : OffV D v v') : ListOff D (setIdx es k v) (setIdx es' k v') := by
+  refine ⟨by simp [setIdx, h.1], fun i w w' hw hw' => ?_⟩
+  simp only [setIdx, List.getElem?_set] at hw hw'
+  by_cases e : k = i
+  · subst e
+    by_cases hl : k < es.length
+    · have hl' : k < es'.length := h.1 ▸ hl
+      simp only [hl, hl', if_true] at hw hw'
+      injection hw with hw; injection hw' with hw'
+      subst hw hw'
+      exact hv
+    · have hl' : ¬ k < es'.length := h.1 ▸ hl
+      simp only [hl, hl', if_true, if_false] at hw hw'
+      cases hw
+  · simp only [e, if_false] at hw hw'
+    exact h.2 i w w' hw hw'
+
+theorem MapOff.set {D : List String} {es es' : List (String × TfVal)} (h : MapOff D es es') (k : String) {v v' : TfVal}
+    (hv : OffV D v v') : MapOff D (setKey k v es) (setKey k v' es') := by
+  refine ⟨fun key => ?_, fun key w w' hw hw' => ?_⟩
+  · by_cases e : key = k
+    · subst e; rw [lookup_setKey_same, lookup_setKey_same]; rfl
+    · rw [lookup_setKey_other _ _ _ e, lookup_setKey_other _ _ _ e]; exact h.1 key
+  · by_cases e : key = k
+    · subst e
+      rw [lookup_setKey_same] at hw hw'
+      injection hw with hw; injection hw' with hw'
+      subst hw hw'
+      exact hv
+    · rw [lookup_setKey_other _ _ _ e] at hw hw'
+      exact h.2 key w w' hw hw'
+
+theorem AttrsOff.set {D : List String} {A A' : List (String × TfVal)} (h : AttrsOff D A A') (k : String) {v v' : TfVal}
+    (hv : OffV D v v') : AttrsOff D (setKey k v A) (setKey k v' A') := by
+  refine ⟨fun key hk => ?_, fun key w w' hk hw hw' => ?_⟩
+  · by_cases e : key = k
+    · subst e; rw [lookup_setKey_same, lookup_setKey_same]; rfl
+    · rw [lookup_setKey_other _ _ _ e, lookup_setKey_other _ _ _ e]; exact h.1 key hk
+  · by_cases e : key = k
+    · subst e
+      rw [lookup_setKey_same] at hw hw'
+      injection hw with hw; injection hw' with hw'
+      subst hw hw'
+      exact hv
+    · rw [lookup_setKey_other _ _ _ e] at hw hw'
+      exact h.2 key w w' hk hw hw'
+
+/-- the recursive calls are related: from the same attribute map (whatever the logs), if `rec` succeeds so does `rec'`,
+with attribute maps that agree outside `D` -/
+def RecRel (D : List String) (rec rec' : ToRec) : Prop :=
+  ∀ o a (s1 s2 t1 : ToSt), s1.attrs = s2.attrs → rec o a s1 = .ok t1 →
+    ∃ t2, rec' o a s2 = .ok t2 ∧ AttrsOff D t1.attrs t2.attrs
+
+theorem objBody_rel (D : List String) (rec rec' : ToRec) (hrec : RecRel D rec rec') (info : FieldInfo)
+    (msg : Option MsgInfo) (se : Bool) (cur : Option TfVal) (oty : Option (List (String × TfTy))) (x : Outcome GoVal)
+    (d1 d2 : List Diag) (h1 h2 : List HookCall) (r1 : TfVal × List Diag × List HookCall)
+    (h : objBody rec info msg se cur oty x d1 h1 = .ok r1) :
+    ∃ r2, objBody rec' info msg se cur oty x d2 h2 = .ok r2 ∧ OffV D r1.1 r2.1 := by
+  unfold objBody at h ⊢
+  split at h
+  rename_i null attrs atys hm
+  clear hm
+  have leaf : ∀ o, (match rec o atys ⟨attrs, d1, h1⟩ with
+        | .ok st => Outcome.ok (TfVal.obj false null (some st.attrs) atys, st.diags, st.hooks)
+        | .panic w => .panic w
+        | .stuck w => .stuck w) = .ok r1 →
+      ∃ r2, (match rec' o atys ⟨attrs, d2, h2⟩ with
+        | .ok st => Outcome.ok (TfVal.obj false null (some st.attrs) atys, st.diags, st.hooks)
+        | .panic w => .panic w
+        | .stuck w => .stuck w) = .ok r2 ∧ OffV D r1.1 r2.1 := by
+    intro o hh
+    cases hr : rec o atys ⟨attrs, d1, h1⟩ with
+    | panic w => rw [hr] at hh; cases hh
+    | stuck w => rw [hr] at hh; cases hh
+    | ok t1 =>
+      rw [hr] at hh
+      injection hh with hh
+      subst hh
+      obtain ⟨t2, ht2, hoff⟩ := hrec o atys ⟨attrs, d1, h1⟩ ⟨attrs, d2, h2⟩ t1 rfl hr
+      rw [ht2]
+      exact ⟨_, rfl, .obj false null _ _ atys hoff.1 hoff.2⟩
+  have same : ∀ (v : TfVal), Outcome.ok (v, d1, h1) = Outcome.ok r1 →
+      ∃ r2, Outcome.ok (v, d2, h2) = Outcome.ok r2 ∧ OffV D r1.1 r2.1 := by
+    intro v hh
+    injection hh with hh
+    subst hh
+    exact ⟨_, rfl, .refl _⟩
+  by_cases c1 : (!info.isNullable && (se || isEmptyMsg msg)) = true
+  · simp only [c1, if_true] at h ⊢
+    by_cases c2 : se = true
+    · simp only [c2, if_true] at h ⊢
+      exact same _ h
+    · simp only [c2, Bool.false_eq_true, if_false] at h ⊢
+      exact leaf _ h
+  · simp only [c1] at h ⊢
+    cases x with
+    | panic w => cases h
+    | stuck w => cases h
+    | ok xv =>
+      simp only [] at h ⊢
+      by_cases c3 : info.isNullable = true
+      · simp only [c3, if_true] at h ⊢
+        cases xv with
+        | ptr o =>
+          cases o with
+          | none => exact same _ h
+          | some s =>
+            simp only [] at h ⊢
+            by_cases c2 : se = true
+            · simp only [c2, if_true] at h ⊢
+              exact same _ h
+            · simp only [c2, Bool.false_eq_true, if_false] at h ⊢
+              exact leaf _ h
+        | _ => cases h
+      · simp only [c3] at h ⊢
+        cases xv with
+        | struct fs =>
+          simp only [] at h ⊢
+          by_cases c2 : se = true
+          · simp only [c2, if_true] at h ⊢
+            exact same _ h
+          · simp only [c2, Bool.false_eq_true, if_false] at h ⊢
+            exact leaf _ h
+        | _ => cases h
+
+/-- element bodies that produce related values, whatever the logs -/
+def BodyRel (D : List String) (body body' : ElemBody) : Prop :=
+  ∀ a d1 h1 d2 h2 r1, body a d1 h1 = .ok r1 → ∃ r2, body' a d2 h2 = .ok r2 ∧ OffV D r1.1 r2.1
+
+theorem copyToElemsList_rel (D : List String) (body body' : ElemBody) (hb : BodyRel D body body') :
+    ∀ (elems : List GoVal) (k : Nat) (acc acc' : List TfVal) (d1 d2 : List Diag) (h1 h2 : List HookCall)
+      (r1 : List TfVal × List Diag × List HookCall), ListOff D acc acc' →
+      copyToElemsList body elems k acc d1 h1 = .ok r1 →
+      ∃ r2, copyToElemsList body' elems k acc' d2 h2 = .ok r2 ∧ ListOff D r1.1 r2.1
+  | [], k, acc, acc', d1, d2, h1, h2, r1, hacc, h => by
+    simp only [copyToElemsList] at h ⊢
+    injection h with h
+    subst h
+    exact ⟨_, rfl, hacc⟩
+  | a :: rest, k, acc, acc', d1, d2, h1, h2, r1, hacc, h => by
+    simp only [copyToElemsList] at h ⊢
+    cases hx : body a d1 h1 with
+    | panic w => rw [hx] at h; cases h
+    | stuck w => rw [hx] at h; cases h
+    | ok x1 =>
+      obtain ⟨x2, hx2, hv⟩ := hb a d1 h1 d2 h2 x1 hx
+      rw [hx] at h
+      rw [hx2]
+      obtain ⟨v1, ds1, hs1⟩ := x1
+      obtain ⟨v2, ds2, hs2⟩ := x2
+      simp only [] at h ⊢
+      exact copyToElemsList_rel D body body' hb rest (k + 1) _ _ ds1 ds2 hs1 hs2 r1 (hacc.set k hv) h
+
+theorem copyToElemsMap_rel (D : List String) (body body' : ElemBody) (hb : BodyRel D body body') :
+    ∀ (elems : List (String × GoVal)) (acc acc' : List (String × TfVal)) (d1 d2 : List Diag) (h1 h2 : List HookCall)
+      (r1 : List (String × TfVal) × List Diag × List HookCall), MapOff D acc acc' →
+      copyToElemsMap body elems acc d1 h1 = .ok r1 →
+      ∃ r2, copyToElemsMap body' elems acc' d2 h2 = .ok r2 ∧ MapOff D r1.1 r2.1
+  | [], acc, acc', d1, d2, h1, h2, r1, hacc, h => by
+    simp only [copyToElemsMap] at h ⊢
+    injection h with h
+    subst h
+    exact ⟨_, rfl, hacc⟩
+  | (k, a) :: rest, acc, acc', d1, d2, h1, h2, r1, hacc, h => by
+    simp only [copyToElemsMap] at h ⊢
+    cases hx : body a d1 h1 with
+    | panic w => rw [hx] at h; cases h
+    | stuck w => rw [hx] at h; cases h
+    | ok x1 =>
+      obtain ⟨x2, hx2, hv⟩ := hb a d1 h1 d2 h2 x1 hx
+      rw [hx] at h
+      rw [hx2]
+      obtain ⟨v1, ds1, hs1⟩ := x1
+      obtain ⟨v2, ds2, hs2⟩ := x2
+      simp only [] at h ⊢
+      exact copyToElemsMap_rel D body body' hb rest _ _ ds1 ds2 hs1 hs2 r1 (hacc.set k hv) h
+
+theorem elemBodyOf_rel (D : List String) (rec rec' : ToRec) (hrec : RecRel D rec rec') (info : FieldInfo)
+    (msg : Option MsgInfo) (se : Bool) (obj0 : GoVal) (ety : Option TfTy) (oty : Option (List (String × TfTy))) :
+    BodyRel D (elemBodyOf rec info msg se obj0 ety oty) (elemBodyOf rec' info msg se obj0 ety oty) := by
+  intro a d1 h1 d2 h2 r1 h
+  unfold elemBodyOf at h ⊢
+  by_cases hk : (info.kind == Kind.objectList || info.kind == Kind.objectMap) = true
+  · simp only [hk, if_true] at h ⊢
+    exact objBody_rel D rec rec' hrec info msg se none oty (.ok a) d1 d2 h1 h2 r1 h
+  · simp only [hk, Bool.false_eq_true, if_false] at h ⊢
+    unfold primElemBody at h ⊢
+    cases hp : primBody info obj0 none ety (.ok a) with
+    | panic w => rw [hp] at h; cases h
+    | stuck w => rw [hp] at h; cases h
+    | ok x =>
+      rw [hp] at h
+      obtain ⟨v, ds⟩ := x
+      simp only [] at h ⊢
+      injection h with h
+      subst h
+      exact ⟨_, rfl, .refl _⟩
+
+/-- two runs of a block (full IR from `s1`, pruned IR from `s2`): if the first succeeds so does the second, and both
+leave the attribute map alone or store related values under `k` -/
+def ActRel (D : List String) (k : String) (s1 s2 : ToSt) (r1 r2 : Outcome ToSt) : Prop :=
+  ∀ t1, r1 = .ok t1 → ∃ t2, r2 = .ok t2 ∧
+    ((t1.attrs = s1.attrs ∧ t2.attrs = s2.attrs) ∨
+     ∃ v v', OffV D v v' ∧ t1.attrs = setKey k v s1.attrs ∧ t2.attrs = setKey k v' s2.attrs)
+
+theorem actRel_same (D : List String) (k : String) (s1 s2 t1 t2 : ToSt) (e1 : t1.attrs = s1.attrs) (e2 : t2.attrs = s2.attrs) :
+    ActRel D k s1 s2 (.ok t1) (.ok t2) := by
+  intro t h; injection h with h; subst h; exact ⟨t2, rfl, Or.inl ⟨e1, e2⟩⟩
+
+theorem actRel_set (D : List String) (k : String) (s1 s2 t1 t2 : ToSt) (v v' : TfVal) (hv : OffV D v v')
+    (e1 : t1.attrs = setKey k v s1.attrs) (e2 : t2.attrs = setKey k v' s2.attrs) :
+    ActRel D k s1 s2 (.ok t1) (.ok t2) := by
+  intro t h; injection h with h; subst h; exact ⟨t2, rfl, Or.inr ⟨v, v', hv, e1, e2⟩⟩
+
+theorem actRel_panic (D : List String) (k : String) (s1 s2 : ToSt) (w : String) (r : Outcome ToSt) :
+    ActRel D k s1 s2 (.panic w) r := by intro t h; cases h
+theorem actRel_stuck (D : List String) (k : String) (s1 s2 : ToSt) (w : String) (r : Outcome ToSt) :
+    ActRel D k s1 s2 (.stuck w) r := by intro t h; cases h
+
+theorem listOrMapBody_rel (D : List String) (rec rec' : ToRec) (hrec : RecRel D rec rec') (info : FieldInfo)
+    (msg : Option MsgInfo) (se : Bool) (obj0 : GoVal) (cur : Option TfVal) (ety : Option TfTy) (src : GoVal) (s1 s2 : ToSt) :
+    ActRel D info.nameSnake s1 s2 (listOrMapBody rec info msg se obj0 cur ety src s1)
+      (listOrMapBody rec' info msg se obj0 cur ety src s2) := by
+  unfold listOrMapBody
+  simp only []
+  by_cases hr : info.isRepeated = true
+  · simp only [hr, if_true]
+    split
+    · exact actRel_set D _ _ _ _ _ _ _ (.refl _) rfl rfl
+    · rename_i elems _
+      generalize reuseList cur _ ety = c
+      cases elemObjTy (info.kind == Kind.objectList || info.kind == Kind.objectMap) ety with
+      | panic w => exact actRel_panic D _ _ _ w _
+      | stuck w => exact actRel_stuck D _ _ _ w _
+      | ok oty =>
+        simp only []
+        by_cases hc : curIsElemKind info cur = true
+        · simp only [hc, if_true]
+          exact actRel_stuck D _ _ _ _ _
+        · simp only [hc]
+          have hh := copyToElemsList_rel D _ _ (elemBodyOf_rel D rec rec' hrec info msg se obj0 ety oty) elems 0 c.2.1 c.2.1
+            s1.diags s2.diags s1.hooks s2.hooks
+          generalize copyToElemsList (elemBodyOf rec info msg se obj0 ety oty) elems 0 c.2.1 s1.diags s1.hooks = r1 at hh ⊢
+          generalize copyToElemsList (elemBodyOf rec' info msg se obj0 ety oty) elems 0 c.2.1 s2.diags s2.hooks = r2 at hh ⊢
+          cases r1 with
+          | panic w => exact actRel_panic D _ _ _ w _
+          | stuck w => exact actRel_stuck D _ _ _ w _
+          | ok x1 =>
+            obtain ⟨x2, e2, hl⟩ := hh x1 (ListOff.refl D _) rfl
+            subst e2
+            obtain ⟨v1, ds1, hs1⟩ := x1
+            obtain ⟨v2, ds2, hs2⟩ := x2
+            exact actRel_set D _ _ _ _ _ _ _ (.list false _ v1 v2 c.2.2 hl.1 hl.2) rfl rfl
+  · simp only [hr]
+    generalize reuseMap cur ety = c
+    cases src with
+    | map o =>
+      cases o with
+      | none => exact actRel_set D _ _ _ _ _ _ _ (.refl _) rfl rfl
+      | some elems =>
+        simp only []
+        cases elemObjTy (info.kind == Kind.objectList || info.kind == Kind.objectMap) ety with
+        | panic w => exact actRel_panic D _ _ _ w _
+        | stuck w => exact actRel_stuck D _ _ _ w _
+        | ok oty =>
+          simp only []
+          by_cases hc : curIsElemKind info cur = true
+          · simp only [hc, if_true]
+            exact actRel_stuck D _ _ _ _ _
+          · simp only [hc]
+            have hh := copyToElemsMap_rel D _ _ (elemBodyOf_rel D rec rec' hrec info msg se obj0 ety oty) elems c.2.1 c.2.1
+              s1.diags s2.diags s1.hooks s2.hooks
+            generalize copyToElemsMap (elemBodyOf rec info msg se obj0 ety oty) elems c.2.1 s1.diags s1.hooks = r1 at hh ⊢
+            generalize copyToElemsMap (elemBodyOf rec' info msg se obj0 ety oty) elems c.2.1 s2.diags s2.hooks = r2 at hh ⊢
+            cases r1 with
+            | panic w => exact actRel_panic D _ _ _ w _
+            | stuck w => exact actRel_stuck D _ _ _ w _
+            | ok x1 =>
+              obtain ⟨x2, e2, hl⟩ := hh x1 (MapOff.refl D _) rfl
+              subst e2
+              obtain ⟨v1, ds1, hs1⟩ := x1
+              obtain ⟨v2, ds2, hs2⟩ := x2
+              exact actRel_set D _ _ _ _ _ _ _ (.map false _ v1 v2 c.2.2 hl.1 hl.2) rfl rfl
+    | _ => exact actRel_set D _ _ _ _ _ _ _ (.refl _) rfl rfl
+
+/-- **congruence of a CopyTo block in its recursive call**: related recursive calls, start states with the same value
+under the block's own attribute name -/
+theorem copyToFieldWith_rel (D : List String) (rec rec' : ToRec) (hrec : RecRel D rec rec') (info : FieldInfo)
+    (msg : Option MsgInfo) (se : Bool) (obj0 : GoVal) (atys : Option (List (String × TfTy))) (s1 s2 : ToSt)
+    (hcur : s1.attrs.lookup info.nameSnake = s2.attrs.lookup info.nameSnake) :
+    ActRel D info.nameSnake s1 s2 (copyToFieldWith rec info msg se obj0 atys s1)
+      (copyToFieldWith rec' info msg se obj0 atys s2) := by
+  unfold copyToFieldWith
+  simp only [hcur]
+  generalize List.lookup info.nameSnake s2.attrs = cur
+  cases List.lookup info.nameSnake (atys.getD []) with
+  | none => exact actRel_same D _ _ _ _ _ rfl rfl
+  | some a =>
+    simp only []
+    cases info.kind with
+    | primitive =>
+      simp only []
+      cases primBody info (oneOfShadow info obj0) cur (some a) (readField info (oneOfShadow info obj0)) with
+      | ok r => obtain ⟨v, ds⟩ := r; exact actRel_set D _ _ _ _ _ v v (.refl _) rfl rfl
+      | panic w => exact actRel_panic D _ _ _ w _
+      | stuck w => exact actRel_stuck D _ _ _ w _
+    | object =>
+      simp only []
+      cases a with
+      | obj oty =>
+        simp only []
+        have hh := objBody_rel D rec rec' hrec info msg se cur oty (readField info (oneOfShadow info obj0))
+          s1.diags s2.diags s1.hooks s2.hooks
+        generalize objBody rec info msg se cur oty _ s1.diags s1.hooks = r1 at hh ⊢
+        generalize objBody rec' info msg se cur oty _ s2.diags s2.hooks = r2 at hh ⊢
+        cases r1 with
+        | panic w => exact actRel_panic D _ _ _ w _
+        | stuck w => exact actRel_stuck D _ _ _ w _
+        | ok x1 =>
+          obtain ⟨x2, e2, hv⟩ := hh x1 rfl
+          subst e2
+          obtain ⟨v1, ds1, hs1⟩ := x1
+          obtain ⟨v2, ds2, hs2⟩ := x2
+          exact actRel_set D _ _ _ _ _ v1 v2 hv rfl rfl
+      | _ => exact actRel_same D _ _ _ _ _ rfl rfl
+    | custom =>
+      simp only []
+      cases readField info obj0 with
+      | ok x =>
+        simp only []
+        cases hookTo info.isRepeated x with
+        | some v => exact actRel_set D _ _ _ _ _ v v (.refl _) rfl rfl
+        | none => exact actRel_stuck D _ _ _ _ _
+      | panic w => exact actRel_panic D _ _ _ w _
+      | stuck w => exact actRel_stuck D _ _ _ w _
+    | _ =>
+      simp only []
+      split
+      · exact actRel_same D _ _ _ _ _ rfl rfl
+      · cases readField info obj0 with
+        | ok src => exact listOrMapBody_rel D rec rec' hrec info msg se obj0 cur _ src s1 s2
+        | panic w => exact actRel_panic D _ _ _ w _
+        | stuck w => exact actRel_stuck D _ _ _ w _
+
+/-- attribute names pairwise distinct -/
+def distinctNames : List Field → Bool
+  | [] => true
+  | f :: r => r.all (fun g => g.info.nameSnake != f.info.nameSnake) && distinctNames r
+
+mutual
+/-- side conditions at every depth below a surviving node: the attribute names of the children are pairwise distinct, and
+the nested message does not lose its last field (the emitted code branches on "the nested message has no fields") -/
+def deepOkF (p : String) : Field → Bool
+  | ⟨_, _, _, sub⟩ => ((pruneFs p sub).isEmpty == sub.isEmpty) && distinctNames sub && deepOkFs p sub
+def deepOkFs (p : String) : List Field → Bool
+  | [] => true
+  | f :: fs => (dropped p f.info || deepOkF p f) && deepOkFs p fs
+end
+
+theorem AttrsOff.congr_left {D : List String} {A1 A1' A2 : List (String × TfVal)}
+    (he : ∀ key, key ∉ D → A1'.lookup key = A1.lookup key) (h : AttrsOff D A1 A2) : AttrsOff D A1' A2 :=
+  ⟨fun key hk => by rw [he key hk]; exact h.1 key hk, fun key v v' hk hv hv' => h.2 key v v' hk (by rw [← he key hk]; exact hv) hv'⟩
+
+open PGT.OrderIndep in
+mutual
+/-- **CopyTo blocks of a pruned field list, excluded field at any depth** -/
+theorem copyToFields_deep (D : List String) (p : String) : ∀ (fs : List Field), distinctNames fs = true → deepOkFs p fs = true →
+    (∀ x ∈ allDroppedAttrs p fs, x ∈ D) →
+    ∀ (obj : GoVal) (atys : Option (List (String × TfTy))) (s1 s2 t1 : ToSt), AttrsOff D s1.attrs s2.attrs →
+    (∀ g ∈ fs, s1.attrs.lookup g.info.nameSnake = s2.attrs.lookup g.info.nameSnake) →
+    copyToFields fs obj atys s1 = .ok t1 →
+    ∃ t2, copyToFields (pruneFs p fs) obj atys s2 = .ok t2 ∧ AttrsOff D t1.attrs t2.attrs
+  | [], _, _, _, obj, atys, s1, s2, t1, hs, _, h => by
+    simp only [copyToFields] at h
+    injection h with h
+    subst h
+    rw [pruneFs_nil]
+    exact ⟨s2, by simp [copyToFields], hs⟩
+  | f :: rest, hdn, hok, hD, obj, atys, s1, s2, t1, hs, hl, h => by
+    rw [distinctNames, Bool.and_eq_true] at hdn
+    rw [deepOkFs, Bool.and_eq_true] at hok
+    have hne : ∀ g ∈ rest, g.info.nameSnake ≠ f.info.nameSnake := by
+      intro g hg
+      have := List.all_eq_true.mp hdn.1 g hg
+      simpa using this
+    rw [allDroppedAttrs] at hD
+    have hDrest : ∀ x ∈ allDroppedAttrs p rest, x ∈ D := fun x hx => hD x (List.mem_append_right _ hx)
+    rw [copyToFields_cons] at h
+    cases hf : copyToField f obj atys s1 with
+    | panic w => rw [hf] at h; cases h
+    | stuck w => rw [hf] at h; cases h
+    | ok u1 =>
+      rw [hf] at h
+      simp only [obind] at h
+      rw [pruneFs_cons]
+      cases hd : dropped p f.info with
+      | true =>
+        simp only [if_true]
+        have hkD : f.info.nameSnake ∈ D := hD _ (List.mem_append_left _ (by simp [hd]))
+        refine copyToFields_deep D p rest hdn.2 hok.2 hDrest obj atys u1 s2 t1 ?_ ?_ h
+        · refine AttrsOff.congr_left (fun key hk => ?_) hs
+          exact copyToField_frame f obj atys s1 u1 hf key (fun e => hk (e ▸ hkD))
+        · intro g hg
+          rw [copyToField_frame f obj atys s1 u1 hf _ (hne g hg)]
+          exact hl g (List.mem_cons_of_mem _ hg)
+      | false =>
+        simp only [Bool.false_eq_true, if_false]
+        rw [copyToFields_cons]
+        have hokf : deepOkF p f = true := by
+          rcases Bool.or_eq_true _ _ |>.mp hok.1 with h' | h'
+          · rw [hd] at h'; cases h'
+          · exact h'
+        have hDf : ∀ x ∈ allDroppedAttrsF p f, x ∈ D := fun x hx => hD x (List.mem_append_left _ (by simpa [hd] using hx))
+        obtain ⟨u2, hu2, hcase⟩ := copyToField_deep D p f hokf hDf obj atys s1 s2 (hl f List.mem_cons_self) u1 hf
+        rw [hu2]
+        simp only [obind]
+        refine copyToFields_deep D p rest hdn.2 hok.2 hDrest obj atys u1 u2 t1 ?_ ?_ h
+        · rcases hcase with ⟨e1, e2⟩ | ⟨v, v', hv, e1, e2⟩
+          · rw [e1, e2]; exact hs
+          · rw [e1, e2]; exact hs.set _ hv
+        · intro g hg
+          have hgl := hl g (List.mem_cons_of_mem _ hg)
+          rcases hcase with ⟨e1, e2⟩ | ⟨v, v', hv, e1, e2⟩
+          · rw [e1, e2]; exact hgl
+          · rw [e1, e2, lookup_setKey_other _ _ _ (hne g hg), lookup_setKey_other _ _ _ (hne g hg)]; exact hgl
+/-- the block of a surviving node against the block of its pruned version -/
+theorem copyToField_deep (D : List String) (p : String) : ∀ (f : Field), deepOkF p f = true →
+    (∀ x ∈ allDroppedAttrsF p f, x ∈ D) →
+    ∀ (obj : GoVal) (atys : Option (List (String × TfTy))) (s1 s2 : ToSt),
+    s1.attrs.lookup f.info.nameSnake = s2.attrs.lookup f.info.nameSnake →
+    ActRel D f.info.nameSnake s1 s2 (copyToField f obj atys s1) (copyToField (pruneF p f) obj atys s2)
+  | ⟨info, mv, msg, sub⟩, hok, hD, obj, atys, s1, s2, hcur => by
+    rw [deepOkF, Bool.and_eq_true, Bool.and_eq_true] at hok
+    rw [allDroppedAttrsF] at hD
+    have hse : (pruneFs p sub).isEmpty = sub.isEmpty := by simpa using hok.1.1
+    rw [copyToField_pruneF, copyToField, hse]
+    refine copyToFieldWith_rel D _ _ ?_ info msg sub.isEmpty obj atys s1 s2 hcur
+    intro o a t1 t2 u1 he hu
+    exact copyToFields_deep D p sub hok.1.2 hok.2 hD o a t1 t2 u1 (he ▸ AttrsOff.refl D _) (fun g _ => by rw [he]) hu
+end
+
+
+/-- **`Copy<T>ToTerraform` of the pruned message, excluded field at any depth.** Attribute names pairwise distinct at
+every level that is visited, and no nested message loses its last field (`deepOkFs`; both decidable on the IR). Whenever
+the converter of `m` succeeds, the converter of `prune p m` succeeds on the same inputs, and the two returned objects
+agree except under the attributes of the removed nodes. -/
+theorem copyTo_prune_deep (p : String) (m : Msg) (obj : GoVal) (tf : TfVal) (r1 : ToResult)
+    (hdn : distinctNames m.fields = true) (hok : deepOkFs p m.fields = true) (h : copyTo m obj tf = .ok r1) :
+    ∃ r2, copyTo (prune p m) obj tf = .ok r2 ∧ OffV (allDroppedAttrs p m.fields) r1.tf r2.tf := by
+  unfold copyTo at h ⊢
+  cases tf with
+  | obj u n attrs atys =>
+    simp only [] at h ⊢
+    cases hf : copyToFields m.fields obj atys { attrs := attrs.getD [] } with
+    | panic w => rw [hf] at h; cases h
+    | stuck w => rw [hf] at h; cases h
+    | ok s1 =>
+      rw [hf] at h
+      injection h with h
+      subst h
+      obtain ⟨s2, h2, hoff⟩ := copyToFields_deep (allDroppedAttrs p m.fields) p m.fields hdn hok (fun _ hx => hx) obj atys
+        _ _ s1 (AttrsOff.refl _ _) (fun _ _ => rfl) hf
+      simp only [prune, h2]
+      exact ⟨_, rfl, .obj false false _ _ atys hoff.1 hoff.2⟩
+  | prim _ _ _ _ => cases h
+  | list _ _ _ _ => cases h
+  | map _ _ _ _ => cases h
+  | nilv => cases h
+  | foreign _ => cases h
+
+/-! ### CopyFrom -/
+
+def ListOffG (D : List String) (es es' : List GoVal) : Prop :=
+  es.length = es'.length ∧ ∀ (i : Nat) v v', es[i]? = some v → es'[i]? = some v' → OffG D v v'
+
+def MapOffG (D : List String) (es es' : List (String × GoVal)) : Prop :=
+  (∀ key, (es.lookup key).isSome = (es'.lookup key).isSome) ∧
+  (∀ key v v', es.lookup key = some v → es'.lookup key = some v' → OffG D v v')
+
+theorem ListOffG.refl (D : List String) (es : List GoVal) : ListOffG D es es :=
+  ⟨rfl, fun _ v v' h h' => by rw [h] at h'; injection h' with h'; subst h'; exact .refl v⟩
+
+theorem MapOffG.refl (D : List String) (es : List (String × GoVal)) : MapOffG D es es :=
+  ⟨fun _ => rfl, fun _ v v' h h' => by rw [h] at h'; injection h' with h'; subst h'; exact .refl v⟩
+
+theorem ListOffG.set {D : List String} {es es' : List GoVal} (h : ListOffG D es es') (k : Nat) {v v' : GoVal}
+    (hv : OffG D v v') : ListOffG D (es.set k v) (es'.set k v') := by
+  refine ⟨by simp [h.1], fun i w w' hw hw' => ?_⟩
+  simp only [List.getElem?_set] at hw hw'
+  by_cases e : k = i
+  · subst e
+    by_cases hl : k < es.length
+    · have hl' : k < es'.length := h.1 ▸ hl
+      simp only [hl, hl', if_true] at hw hw'
+      injection hw with hw; injection hw' with hw'
+      subst hw hw'
+      exact hv
+    · have hl' : ¬ k < es'.length := h.1 ▸ hl
+      simp only [hl, hl', if_true, if_false] at hw hw'
+      cases hw
+  · simp only [e, if_false] at hw hw'
+    exact h.2 i w w' hw hw'
+
+theorem MapOffG.set {D : List String} {es es' : List (String × GoVal)} (h : MapOffG D es es') (k : String) {v v' : GoVal}
+    (hv : OffG D v v') : MapOffG D (setKey k v es) (setKey k v' es') := by
+  refine ⟨fun key => ?_, fun key w w' hw hw' => ?_⟩
+  · by_cases e : key = k
+    · subst e; rw [lookup_setKey_same, lookup_setKey_same]; rfl
+    · rw [lookup_setKey_other _ _ _ e, lookup_setKey_other _ _ _ e]; exact h.1 key
+  · by_cases e : key = k
+    · subst e
+      rw [lookup_setKey_same] at hw hw'
+      injection hw with hw; injection hw' with hw'
+      subst hw hw'
+      exact hv
+    · rw [lookup_setKey_other _ _ _ e] at hw hw'
+      exact h.2 key w w' hw hw'
+
+/-- assigning related values to the same Go field of related targets -/
+theorem OffG.setField {D : List String} {o o' : GoVal} (h : OffG D o o') (k : String) {y y' : GoVal} (hy : OffG D y y') :
+    OffG D (o.setField k y) (o'.setField k y') := by
+  have key : ∀ fs fs' : List (String × GoVal),
+      (∀ name, name ∉ D → (fs.lookup name).isSome = (fs'.lookup name).isSome) →
+      (∀ name v v', name ∉ D → fs.lookup name = some v → fs'.lookup name = some v' → OffG D v v') →
+      OffG D (GoVal.struct (setKey k y fs)) (GoVal.struct (setKey k y' fs')) := by
+    intro fs fs' hdom hval
+    refine .struct _ _ (fun name hn => ?_) (fun name v v' hn hv hv' => ?_)
+    · by_cases e : name = k
+      · subst e; rw [lookup_setKey_same, lookup_setKey_same]; rfl
+      · rw [lookup_setKey_other _ _ _ e, lookup_setKey_other _ _ _ e]; exact hdom name hn
+    · by_cases e : name = k
+      · subst e
+        rw [lookup_setKey_same] at hv hv'
+        injection hv with hv; injection hv' with hv'
+        subst hv hv'
+        exact hy
+      · rw [lookup_setKey_other _ _ _ e] at hv hv'
+        exact hval name v v' hn hv hv'
+  cases h with
+  | refl =>
+    cases o with
+    | struct fs =>
+      exact key fs fs (fun _ _ => rfl) (fun _ v v' _ h h' => by rw [h] at h'; injection h' with h'; subst h'; exact .refl v)
+    | _ => exact .refl _
+  | struct fs fs' hdom hval => exact key fs fs' hdom hval
+  | ptr v v' h => exact .ptr v v' h
+  | slice es es' hl hv => exact .slice es es' hl hv
+  | map es es' hd hv => exact .map es es' hd hv
+  | iface w f v v' h => exact .iface w f v v' h
+
+/-- assigning a Go field named in `D` on one side only -/
+theorem OffG.setField_left {D : List String} {o o' : GoVal} (h : OffG D o o') (k : String) (hk : k ∈ D) (y : GoVal) :
+    OffG D (o.setField k y) o' := by
+  have key : ∀ fs fs' : List (String × GoVal),
+      (∀ name, name ∉ D → (fs.lookup name).isSome = (fs'.lookup name).isSome) →
+      (∀ name v v', name ∉ D → fs.lookup name = some v → fs'.lookup name = some v' → OffG D v v') →
+      OffG D (GoVal.struct (setKey k y fs)) (GoVal.struct fs') := by
+    intro fs fs' hdom hval
+    refine .struct _ _ (fun name hn => ?_) (fun name v v' hn hv hv' => ?_)
+    · have e : name ≠ k := fun e => hn (e ▸ hk)
+      rw [lookup_setKey_other _ _ _ e]; exact hdom name hn
+    · have e : name ≠ k := fun e => hn (e ▸ hk)
+      rw [lookup_setKey_other _ _ _ e] at hv
+      exact hval name v v' hn hv hv'
+  cases h with
+  | refl =>
+    cases o with
+    | struct fs =>
+      exact key fs fs (fun _ _ => rfl) (fun _ v v' _ h h' => by rw [h] at h'; injection h' with h'; subst h'; exact .refl v)
+    | _ => exact .refl _
+  | struct fs fs' hdom hval => exact key fs fs' hdom hval
+  | ptr v v' h => exact .ptr v v' h
+  | slice es es' hl hv => exact .slice es es' hl hv
+  | map es es' hd hv => exact .map es es' hd hv
+  | iface w f v v' h => exact .iface w f v v' h
+
+/-- the recursive calls are related: on a fresh struct (whatever the logs), if `rec` succeeds so does `rec'`, and the
+structs they fill agree outside `D` -/
+def FRecRel (D : List String) (rec rec' : FromRec) : Prop :=
+  ∀ as d1 h1 d2 h2 (t1 : FromSt), rec as { obj := .struct [], diags := d1, hooks := h1 } = .ok t1 →
+    ∃ t2, rec' as { obj := .struct [], diags := d2, hooks := h2 } = .ok t2 ∧ OffG D t1.obj t2.obj
+
+def OptOffG (D : List String) : Option GoVal → Option GoVal → Prop
+  | none, none => True
+  | some a, some b => OffG D a b
+  | _, _ => False
+
+abbrev FBody := TfVal → List Diag → List HookCall → Outcome (Option GoVal × List Diag × List HookCall)
+
+def FBodyRel (D : List String) (body body' : FBody) : Prop :=
+  ∀ e d1 h1 d2 h2 r1, body e d1 h1 = .ok r1 → ∃ r2, body' e d2 h2 = .ok r2 ∧ OptOffG D r1.1 r2.1
+
+theorem fromElemsList_rel (D : List String) (body body' : FBody) (hb : FBodyRel D body body') :
+    ∀ (elems : List TfVal) (k : Nat) (acc acc' : List GoVal) (d1 d2 : List Diag) (h1 h2 : List HookCall)
+      (r1 : List GoVal × List Diag × List HookCall), ListOffG D acc acc' →
+      fromElemsList body elems k acc d1 h1 = .ok r1 →
+      ∃ r2, fromElemsList body' elems k acc' d2 h2 = .ok r2 ∧ ListOffG D r1.1 r2.1
+  | [], k, acc, acc', d1, d2, h1, h2, r1, hacc, h => by
+    simp only [fromElemsList] at h ⊢
+    injection h with h
+    subst h
+    exact ⟨_, rfl, hacc⟩
+  | a :: rest, k, acc, acc', d1, d2, h1, h2, r1, hacc, h => by
+    simp only [fromElemsList] at h ⊢
+    cases hx : body a d1 h1 with
+    | panic w => rw [hx] at h; cases h
+    | stuck w => rw [hx] at h; cases h
+    | ok x1 =>
+      obtain ⟨x2, hx2, hv⟩ := hb a d1 h1 d2 h2 x1 hx
+      rw [hx] at h
+      rw [hx2]
+      obtain ⟨v1, ds1, hs1⟩ := x1
+      obtain ⟨v2, ds2, hs2⟩ := x2
+      cases v1 with
+      | none =>
+        cases v2 with
+        | none =>
+          simp only [] at h ⊢
+          exact fromElemsList_rel D body body' hb rest (k + 1) _ _ ds1 ds2 hs1 hs2 r1 hacc h
+        | some b => exact hv.elim
+      | some a1 =>
+        cases v2 with
+        | none => exact hv.elim
+        | some a2 =>
+          simp only [] at h ⊢
+          exact fromElemsList_rel D body body' hb rest (k + 1) _ _ ds1 ds2 hs1 hs2 r1 (hacc.set k hv) h
+
+theorem fromElemsMap_rel (D : List String) (body body' : FBody) (hb : FBodyRel D body body') :
+    ∀ (elems : List (String × TfVal)) (acc acc' : List (String × GoVal)) (d1 d2 : List Diag) (h1 h2 : List HookCall)
+      (r1 : List (String × GoVal) × List Diag × List HookCall), MapOffG D acc acc' →
+      fromElemsMap body elems acc d1 h1 = .ok r1 →
+      ∃ r2, fromElemsMap body' elems acc' d2 h2 = .ok r2 ∧ MapOffG D r1.1 r2.1
+  | [], acc, acc', d1, d2, h1, h2, r1, hacc, h => by
+    simp only [fromElemsMap] at h ⊢
+    injection h with h
+    subst h
+    exact ⟨_, rfl, hacc⟩
+  | (k, a) :: rest, acc, acc', d1, d2, h1, h2, r1, hacc, h => by
+    simp only [fromElemsMap] at h ⊢
+    cases hx : body a d1 h1 with
+    | panic w => rw [hx] at h; cases h
+    | stuck w => rw [hx] at h; cases h
+    | ok x1 =>
+      obtain ⟨x2, hx2, hv⟩ := hb a d1 h1 d2 h2 x1 hx
+      rw [hx] at h
+      rw [hx2]
+      obtain ⟨v1, ds1, hs1⟩ := x1
+      obtain ⟨v2, ds2, hs2⟩ := x2
+      cases v1 with
+      | none =>
+        cases v2 with
+        | none =>
+          simp only [] at h ⊢
+          exact fromElemsMap_rel D body body' hb rest _ _ ds1 ds2 hs1 hs2 r1 hacc h
+        | some b => exact hv.elim
+      | some a1 =>
+        cases v2 with
+        | none => exact hv.elim
+        | some a2 =>
+          simp only [] at h ⊢
+          exact fromElemsMap_rel D body body' hb rest _ _ ds1 ds2 hs1 hs2 r1 (hacc.set k hv) h
+
+theorem fromElemBody_rel (D : List String) (rec rec' : FromRec) (hrec : FRecRel D rec rec') (ov : List (String × String))
+    (info vf : FieldInfo) : FBodyRel D (fromElemBody rec ov info vf) (fromElemBody rec' ov info vf) := by
+  intro e d1 h1 d2 h2 r1 h
+  unfold fromElemBody at h ⊢
+  by_cases c : (e.vkind != vkindOf vf.tf.elemValueType || e.vkind == VKind.unknown) = true
+  · simp only [c, if_true] at h ⊢
+    injection h with h
+    subst h
+    exact ⟨_, rfl, trivial⟩
+  · simp only [c, Bool.false_eq_true, if_false] at h ⊢
+    cases e with
+    | prim k u nl p =>
+      simp only [] at h ⊢
+      by_cases c2 : (info.kind == Kind.primitiveList || info.kind == Kind.primitiveMap) = true
+      · simp only [c2, if_true] at h ⊢
+        cases hp : primDecode info k u nl p with
+        | panic w => rw [hp] at h; cases h
+        | stuck w => rw [hp] at h; cases h
+        | ok t =>
+          rw [hp] at h
+          simp only [] at h ⊢
+          injection h with h
+          subst h
+          exact ⟨_, rfl, OffG.refl _⟩
+      · simp only [c2, Bool.false_eq_true, if_false] at h
+        cases h
+    | obj u nl attrs atys =>
+      simp only [] at h ⊢
+      by_cases c2 : (info.kind == Kind.objectList || info.kind == Kind.objectMap) = true
+      · simp only [c2, if_true] at h ⊢
+        by_cases c3 : known u nl = true
+        · simp only [c3, if_true] at h ⊢
+          cases hr : rec attrs { obj := .struct [], diags := d1, hooks := h1 } with
+          | panic w => rw [hr] at h; cases h
+          | stuck w => rw [hr] at h; cases h
+          | ok t1 =>
+            obtain ⟨t2, ht2, hoff⟩ := hrec attrs d1 h1 d2 h2 t1 hr
+            rw [hr] at h
+            rw [ht2]
+            simp only [] at h ⊢
+            injection h with h
+            subst h
+            refine ⟨_, rfl, ?_⟩
+            show OffG D _ _
+            cases info.isNullable
+            · exact hoff
+            · exact .ptr _ _ hoff
+        · simp only [c3, Bool.false_eq_true, if_false] at h ⊢
+          injection h with h
+          subst h
+          exact ⟨_, rfl, OffG.refl _⟩
+      · simp only [c2, Bool.false_eq_true, if_false] at h
+        cases h
+    | list _ _ _ _ => cases h
+    | map _ _ _ _ => cases h
+    | nilv => cases h
+    | foreign _ => cases h
+
+/-- two blocks, as functions of the target: from related targets, if the first succeeds so does the second, with
+related targets -/
+def FRel (D : List String) (F F' : GoVal → Outcome FromSt) : Prop :=
+  ∀ o o' t, OffG D o o' → F o = .ok t → ∃ t', F' o' = .ok t' ∧ OffG D t.obj t'.obj
+
+theorem frel_none (D : List String) (d d' : List Diag) (h h' : List HookCall) :
+    FRel D (fun o => .ok { obj := o, diags := d, hooks := h }) (fun o => .ok { obj := o, diags := d', hooks := h' }) := by
+  intro o o' t ho e; injection e with e; subst e; exact ⟨_, rfl, ho⟩
+
+theorem frel_set (D : List String) (k : String) (y y' : GoVal) (hy : OffG D y y') (d d' : List Diag) (h h' : List HookCall) :
+    FRel D (fun o => .ok { obj := o.setField k y, diags := d, hooks := h })
+      (fun o => .ok { obj := o.setField k y', diags := d', hooks := h' }) := by
+  intro o o' t ho e; injection e with e; subst e; exact ⟨_, rfl, ho.setField k hy⟩
+
+theorem frel_set2 (D : List String) (k : String) (x x' y y' : GoVal) (hx : OffG D x x') (hy : OffG D y y')
+    (d d' : List Diag) (h h' : List HookCall) :
+    FRel D (fun o => .ok { obj := (o.setField k x).setField k y, diags := d, hooks := h })
+      (fun o => .ok { obj := (o.setField k x').setField k y', diags := d', hooks := h' }) := by
+  intro o o' t ho e; injection e with e; subst e; exact ⟨_, rfl, (ho.setField k hx).setField k hy⟩
+
+theorem frel_stuck (D : List String) (m : String) (F' : GoVal → Outcome FromSt) : FRel D (fun _ => .stuck m) F' := by
+  intro o o' t _ e; cases e
+theorem frel_panic (D : List String) (m : String) (F' : GoVal → Outcome FromSt) : FRel D (fun _ => .panic m) F' := by
+  intro o o' t _ e; cases e
+
+macro "offg" : tactic => `(tactic| first
+  | exact OffG.refl _ | assumption | exact OffG.ptr _ _ (by assumption)
+  | exact OffG.iface _ _ _ _ (OffG.ptr _ _ (by assumption))
+  | exact OffG.slice _ _ (by assumption) (by assumption) | exact OffG.map _ _ (by assumption) (by assumption))
+
+macro "frel_crush" : tactic => `(tactic| repeat' (first
+  | split | exact frel_none _ _ _ _ _ | exact frel_set _ _ _ _ (by offg) _ _ _ _
+  | exact frel_set2 _ _ _ _ _ _ (by offg) (by offg) _ _ _ _
+  | exact frel_stuck _ _ _ | exact frel_panic _ _ _))
+
+section blocks
+variable (D : List String) (rec rec' : FromRec) (ov : List (String × String))
+    (info : FieldInfo) (mv : Option FieldInfo) (msg : Option MsgInfo) (attrs : Option (List (String × TfVal)))
+    (ds ds' : List Diag) (hs hs' : List HookCall)
+
+theorem fieldWith_frel_custom (he : info.parentIsOptionalEmbed = false) (hk : info.kind = .custom) :
+    FRel D (fun o => copyFromFieldWith rec ov info mv msg attrs { obj := o, diags := ds, hooks := hs })
+      (fun o => copyFromFieldWith rec' ov info mv msg attrs { obj := o, diags := ds', hooks := hs' }) := by
+  unfold copyFromFieldWith
+  simp only [writeField_plain info _ _ he, he, FromSt.diag, hk]
+  cases (attrs.getD []).lookup info.nameSnake <;> simp only [Bool.false_eq_true, if_false] <;>
+    exact frel_set _ _ _ _ (.refl _) _ _ _ _
+
+theorem fieldWith_frel_prim_plain (he : info.parentIsOptionalEmbed = false) (hk : info.kind = .primitive)
+    (ho : info.oneOfName = "") :
+    FRel D (fun o => copyFromFieldWith rec ov info mv msg attrs { obj := o, diags := ds, hooks := hs })
+      (fun o => copyFromFieldWith rec' ov info mv msg attrs { obj := o, diags := ds', hooks := hs' }) := by
+  unfold copyFromFieldWith
+  simp only [embedGuard_plain info _ _ he, writeField_plain info _ _ he, he, FromSt.diag, hk]
+  simp only [ho, bne_self_eq_false, Bool.false_eq_true, if_false]
+  cases (attrs.getD []).lookup info.nameSnake with
+  | none => exact frel_none _ _ _ _ _
+  | some a =>
+    simp only []; cases a <;> simp only [] <;> frel_crush
+
+theorem fieldWith_frel_prim_branch (he : info.parentIsOptionalEmbed = false) (hk : info.kind = .primitive)
+    (ho : info.oneOfName ≠ "") :
+    FRel D (fun o => copyFromFieldWith rec ov info mv msg attrs { obj := o, diags := ds, hooks := hs })
+      (fun o => copyFromFieldWith rec' ov info mv msg attrs { obj := o, diags := ds', hooks := hs' }) := by
+  unfold copyFromFieldWith
+  simp only [embedGuard_plain info _ _ he, writeField_plain info _ _ he, he, FromSt.diag, hk]
+  have hb : (info.oneOfName != "") = true := by simpa using ho
+  simp only [hb, if_true]
+  cases (attrs.getD []).lookup info.nameSnake with
+  | none => exact frel_none _ _ _ _ _
+  | some a => simp only []; cases a <;> simp only [] <;> frel_crush
+
+theorem fieldWith_frel_obj_plain (hrec : FRecRel D rec rec') (he : info.parentIsOptionalEmbed = false)
+    (hk : info.kind = .object) (ho : info.oneOfName = "") :
+    FRel D (fun o => copyFromFieldWith rec ov info mv msg attrs { obj := o, diags := ds, hooks := hs })
+      (fun o => copyFromFieldWith rec' ov info mv msg attrs { obj := o, diags := ds', hooks := hs' }) := by
+  unfold copyFromFieldWith
+  simp only [embedGuard_plain info _ _ he, writeField_plain info _ _ he, he, FromSt.diag, hk]
+  simp only [ho, beq_self_eq_true, if_true]
+  cases (attrs.getD []).lookup info.nameSnake with
+  | none => exact frel_none _ _ _ _ _
+  | some a =>
+    simp only []
+    cases a with
+    | obj unk null as atys =>
+      simp only []
+      cases hr : rec as { obj := .struct [], diags := ds, hooks := hs } with
+      | ok t1 =>
+        obtain ⟨t2, ht2, hoff⟩ := hrec as ds hs ds' hs' t1 hr
+        simp only [ht2]
+        frel_crush
+      | panic w => simp only []; frel_crush
+      | stuck w => simp only []; frel_crush
+    | _ => simp only []; frel_crush
+
+theorem fieldWith_frel_obj_branch (hrec : FRecRel D rec rec') (he : info.parentIsOptionalEmbed = false)
+    (hk : info.kind = .object) (ho : info.oneOfName ≠ "") :
+    FRel D (fun o => copyFromFieldWith rec ov info mv msg attrs { obj := o, diags := ds, hooks := hs })
+      (fun o => copyFromFieldWith rec' ov info mv msg attrs { obj := o, diags := ds', hooks := hs' }) := by
+  unfold copyFromFieldWith
+  simp only [embedGuard_plain info _ _ he, writeField_plain info _ _ he, he, FromSt.diag, hk]
+  have hb : (info.oneOfName == "") = false := by simpa using ho
+  simp only [hb, Bool.false_eq_true, if_false]
+  cases (attrs.getD []).lookup info.nameSnake with
+  | none => exact frel_none _ _ _ _ _
+  | some a =>
+    simp only []
+    cases a with
+    | obj unk null as atys =>
+      simp only []
+      cases hem : isEmptyMsg msg with
+      | true =>
+        simp only [Bool.not_true, Bool.false_eq_true, if_false]
+        frel_crush
+      | false =>
+        simp only [Bool.not_false, if_true]
+        cases hr : rec as { obj := .struct [], diags := ds, hooks := hs } with
+        | ok t1 =>
+          obtain ⟨t2, ht2, hoff⟩ := hrec as ds hs ds' hs' t1 hr
+          simp only [ht2]
+          frel_crush
+        | panic w => simp only []; frel_crush
+        | stuck w => simp only []; frel_crush
+    | _ => simp only []; frel_crush
+
+theorem fieldWith_frel_primitiveList (hrec : FRecRel D rec rec') (he : info.parentIsOptionalEmbed = false)
+    (hk : info.kind = .primitiveList) :
+    FRel D (fun o => copyFromFieldWith rec ov info mv msg attrs { obj := o, diags := ds, hooks := hs })
+      (fun o => copyFromFieldWith rec' ov info mv msg attrs { obj := o, diags := ds', hooks := hs' }) := by
+  unfold copyFromFieldWith
+  simp only [embedGuard_plain info _ _ he, writeField_plain info _ _ he, he, FromSt.diag, hk]
+  cases (attrs.getD []).lookup info.nameSnake with
+  | none => exact frel_none _ _ _ _ _
+  | some a =>
+    simp only []
+    cases a with
+    | list unk null elems ety =>
+      simp only []
+      have hh := fromElemsList_rel D _ _ (fromElemBody_rel D rec rec' hrec ov info info) (elems.getD []) 0
+        (List.replicate (elems.getD []).length (zeroElem info)) (List.replicate (elems.getD []).length (zeroElem info))
+        ds ds' hs hs'
+      generalize fromElemsList (fromElemBody rec ov info info) (elems.getD []) 0 _ ds hs = r1 at hh ⊢
+      generalize fromElemsList (fromElemBody rec' ov info info) (elems.getD []) 0 _ ds' hs' = r2 at hh ⊢
+      cases r1 with
+      | ok x1 =>
+        obtain ⟨x2, e2, hlen, hval⟩ := hh x1 (ListOffG.refl D _) rfl
+        subst e2
+        obtain ⟨l1, d1, g1⟩ := x1
+        obtain ⟨l2, d2, g2⟩ := x2
+        simp only [] at hlen hval ⊢
+        frel_crush
+      | panic w => simp only []; frel_crush
+      | stuck w => simp only []; frel_crush
+    | _ => simp only []; frel_crush
+
+theorem fieldWith_frel_objectList (hrec : FRecRel D rec rec') (he : info.parentIsOptionalEmbed = false)
+    (hk : info.kind = .objectList) :
+    FRel D (fun o => copyFromFieldWith rec ov info mv msg attrs { obj := o, diags := ds, hooks := hs })
+      (fun o => copyFromFieldWith rec' ov info mv msg attrs { obj := o, diags := ds', hooks := hs' }) := by
+  unfold copyFromFieldWith
+  simp only [embedGuard_plain info _ _ he, writeField_plain info _ _ he, he, FromSt.diag, hk]
+  cases (attrs.getD []).lookup info.nameSnake with
+  | none => exact frel_none _ _ _ _ _
+  | some a =>
+    simp only []
+    cases a with
+    | list unk null elems ety =>
+      simp only []
+      have hh := fromElemsList_rel D _ _ (fromElemBody_rel D rec rec' hrec ov info info) (elems.getD []) 0
+        (List.replicate (elems.getD []).length (zeroElem info)) (List.replicate (elems.getD []).length (zeroElem info))
+        ds ds' hs hs'
+      generalize fromElemsList (fromElemBody rec ov info info) (elems.getD []) 0 _ ds hs = r1 at hh ⊢
+      generalize fromElemsList (fromElemBody rec' ov info info) (elems.getD []) 0 _ ds' hs' = r2 at hh ⊢
+      cases r1 with
+      | ok x1 =>
+        obtain ⟨x2, e2, hlen, hval⟩ := hh x1 (ListOffG.refl D _) rfl
+        subst e2
+        obtain ⟨l1, d1, g1⟩ := x1
+        obtain ⟨l2, d2, g2⟩ := x2
+        simp only [] at hlen hval ⊢
+        frel_crush
+      | panic w => simp only []; frel_crush
+      | stuck w => simp only []; frel_crush
+    | _ => simp only []; frel_crush
+
+theorem fieldWith_frel_primitiveMap (hrec : FRecRel D rec rec') (he : info.parentIsOptionalEmbed = false)
+    (hk : info.kind = .primitiveMap) :
+    FRel D (fun o => copyFromFieldWith rec ov info mv msg attrs { obj := o, diags := ds, hooks := hs })
+      (fun o => copyFromFieldWith rec' ov info mv msg attrs { obj := o, diags := ds', hooks := hs' }) := by
+  unfold copyFromFieldWith
+  simp only [embedGuard_plain info _ _ he, writeField_plain info _ _ he, he, FromSt.diag, hk]
+  cases (attrs.getD []).lookup info.nameSnake with
+  | none => exact frel_none _ _ _ _ _
+  | some a =>
+    simp only []
+    cases a with
+    | map unk null elems ety =>
+      simp only []
+      have hh := fromElemsMap_rel D _ _ (fromElemBody_rel D rec rec' hrec ov info (mv.getD info)) (elems.getD []) [] []
+        ds ds' hs hs'
+      generalize fromElemsMap (fromElemBody rec ov info (mv.getD info)) (elems.getD []) [] ds hs = r1 at hh ⊢
+      generalize fromElemsMap (fromElemBody rec' ov info (mv.getD info)) (elems.getD []) [] ds' hs' = r2 at hh ⊢
+      cases r1 with
+      | ok x1 =>
+        obtain ⟨x2, e2, hdom, hval⟩ := hh x1 (MapOffG.refl D _) rfl
+        subst e2
+        obtain ⟨l1, d1, g1⟩ := x1
+        obtain ⟨l2, d2, g2⟩ := x2
+        simp only [] at hdom hval ⊢
+        frel_crush
+      | panic w => simp only []; frel_crush
+      | stuck w => simp only []; frel_crush
+    | _ => simp only []; frel_crush
+
+theorem fieldWith_frel_objectMap (hrec : FRecRel D rec rec') (he : info.parentIsOptionalEmbed = false)
+    (hk : info.kind = .objectMap) :
+    FRel D (fun o => copyFromFieldWith rec ov info mv msg attrs { obj := o, diags := ds, hooks := hs })
+      (fun o => copyFromFieldWith rec' ov info mv msg attrs { obj := o, diags := ds', hooks := hs' }) := by
+  unfold copyFromFieldWith
+  simp only [embedGuard_plain info _ _ he, writeField_plain info _ _ he, he, FromSt.diag, hk]
+  cases (attrs.getD []).lookup info.nameSnake with
+  | none => exact frel_none _ _ _ _ _
+  | some a =>
+    simp only []
+    cases a with
+    | map unk null elems ety =>
+      simp only []
+      have hh := fromElemsMap_rel D _ _ (fromElemBody_rel D rec rec' hrec ov info (mv.getD info)) (elems.getD []) [] []
+        ds ds' hs hs'
+      generalize fromElemsMap (fromElemBody rec ov info (mv.getD info)) (elems.getD []) [] ds hs = r1 at hh ⊢
+      generalize fromElemsMap (fromElemBody rec' ov info (mv.getD info)) (elems.getD []) [] ds' hs' = r2 at hh ⊢
+      cases r1 with
+      | ok x1 =>
+        obtain ⟨x2, e2, hdom, hval⟩ := hh x1 (MapOffG.refl D _) rfl
+        subst e2
+        obtain ⟨l1, d1, g1⟩ := x1
+        obtain ⟨l2, d2, g2⟩ := x2
+        simp only [] at hdom hval ⊢
+        frel_crush
+      | panic w => simp only []; frel_crush
+      | stuck w => simp only []; frel_crush
+    | _ => simp only []; frel_crush
+
+/-- **congruence of a CopyFrom block in its recursive call** (field not a child of a nullable embedded message) -/
+theorem fieldWith_frel (hrec : FRecRel D rec rec') (he : info.parentIsOptionalEmbed = false) :
+    FRel D (fun o => copyFromFieldWith rec ov info mv msg attrs { obj := o, diags := ds, hooks := hs })
+      (fun o => copyFromFieldWith rec' ov info mv msg attrs { obj := o, diags := ds', hooks := hs' }) := by
+  cases hk : info.kind with
+  | custom => exact fieldWith_frel_custom D rec rec' ov info mv msg attrs ds ds' hs hs' he hk
+  | primitive =>
+    by_cases ho : info.oneOfName = ""
+    · exact fieldWith_frel_prim_plain D rec rec' ov info mv msg attrs ds ds' hs hs' he hk ho
+    · exact fieldWith_frel_prim_branch D rec rec' ov info mv msg attrs ds ds' hs hs' he hk ho
+  | object =>
+    by_cases ho : info.oneOfName = ""
+    · exact fieldWith_frel_obj_plain D rec rec' ov info mv msg attrs ds ds' hs hs' hrec he hk ho
+    · exact fieldWith_frel_obj_branch D rec rec' ov info mv msg attrs ds ds' hs hs' hrec he hk ho
+  | primitiveList => exact fieldWith_frel_primitiveList D rec rec' ov info mv msg attrs ds ds' hs hs' hrec he hk
+  | objectList => exact fieldWith_frel_objectList D rec rec' ov info mv msg attrs ds ds' hs hs' hrec he hk
+  | primitiveMap => exact fieldWith_frel_primitiveMap D rec rec' ov info mv msg attrs ds ds' hs hs' hrec he hk
+  | objectMap => exact fieldWith_frel_objectMap D rec rec' ov info mv msg attrs ds ds' hs hs' hrec he hk
+
+end blocks
+
+theorem offG_applyWrites_left (D : List String) (k : String) (hk : k ∈ D) : ∀ (ws : List (String × GoVal)) (o o' : GoVal),
+    (∀ w ∈ ws, w.1 = k) → OffG D o o' → OffG D (applyWrites ws o) o'
+  | [], _, _, _, h => h
+  | w :: ws, o, o', hw, h => by
+    simp only [applyWrites, List.foldl]
+    refine offG_applyWrites_left D k hk ws _ o' (fun x hx => hw x (List.mem_cons_of_mem _ hx)) ?_
+    rw [hw w List.mem_cons_self]
+    exact h.setField_left k hk _
+
+open PGT.OrderIndep in
+mutual
+/-- **CopyFrom blocks of a pruned field list, excluded field at any depth** (no children of nullable embedded messages) -/
+theorem copyFromFields_deep (D : List String) (p : String) (ov : List (String × String)) : ∀ (fs : List Field),
+    plainFs fs = true → (∀ x ∈ allDroppedGo p fs, x ∈ D) →
+    ∀ (attrs : Option (List (String × TfVal))) (s1 s2 t1 : FromSt), OffG D s1.obj s2.obj →
+    copyFromFields ov fs attrs s1 = .ok t1 →
+    ∃ t2, copyFromFields ov (pruneFs p fs) attrs s2 = .ok t2 ∧ OffG D t1.obj t2.obj
+  | [], _, _, attrs, s1, s2, t1, hs, h => by
+    simp only [copyFromFields] at h
+    injection h with h
+    subst h
+    rw [pruneFs_nil]
+    exact ⟨s2, by simp [copyFromFields], hs⟩
+  | f :: rest, hpl, hD, attrs, s1, s2, t1, hs, h => by
+    rw [plainFs, Bool.and_eq_true] at hpl
+    rw [allDroppedGo] at hD
+    have hDrest : ∀ x ∈ allDroppedGo p rest, x ∈ D := fun x hx => hD x (List.mem_append_right _ hx)
+    have hef : f.info.parentIsOptionalEmbed = false := by
+      obtain ⟨info, mv, msg, sub⟩ := f
+      have := hpl.1
+      rw [plainF, Bool.and_eq_true] at this
+      simpa using this.1
+    rw [copyFromFields_cons] at h
+    cases hb : blockF ov f attrs s1 with
+    | panic w => rw [hb] at h; cases h
+    | stuck w => rw [hb] at h; cases h
+    | ok u1 =>
+      rw [hb] at h
+      simp only [obind] at h
+      rw [pruneFs_cons]
+      cases hd : dropped p f.info with
+      | true =>
+        simp only [if_true]
+        have hkD : wk f.info ∈ D := hD _ (List.mem_append_left _ (by simp [hd]))
+        refine copyFromFields_deep D p ov rest hpl.2 hDrest attrs u1 s2 t1 ?_ h
+        obtain ⟨a, hpa, ha⟩ := blockF_nf ov f attrs hef
+        rw [ha s1] at hb
+        cases a with
+        | panic w => simp [applyFAct] at hb
+        | stuck w => simp [applyFAct] at hb
+        | ok r =>
+          obtain ⟨ws, dx, hx⟩ := r
+          simp only [applyFAct, Outcome.ok.injEq] at hb
+          subst hb
+          exact offG_applyWrites_left D _ hkD ws _ _ (hpa ws dx hx rfl).1 hs
+      | false =>
+        simp only [Bool.false_eq_true, if_false]
+        rw [copyFromFields_cons]
+        have hDf : ∀ x ∈ allDroppedGoF p f, x ∈ D := fun x hx => hD x (List.mem_append_left _ (by simpa [hd] using hx))
+        obtain ⟨u2, hu2, hoff⟩ := blockF_deep D p ov f hpl.1 hDf attrs s1 s2 u1 hs hb
+        rw [hu2]
+        simp only [obind]
+        exact copyFromFields_deep D p ov rest hpl.2 hDrest attrs u1 u2 t1 hoff h
+/-- one step (`blockF`: the placeholder has no block) of a surviving node against the step of its pruned version -/
+theorem blockF_deep (D : List String) (p : String) (ov : List (String × String)) : ∀ (f : Field), plainF f = true →
+    (∀ x ∈ allDroppedGoF p f, x ∈ D) →
+    ∀ (attrs : Option (List (String × TfVal))) (s1 s2 u1 : FromSt), OffG D s1.obj s2.obj →
+    blockF ov f attrs s1 = .ok u1 → ∃ u2, blockF ov (pruneF p f) attrs s2 = .ok u2 ∧ OffG D u1.obj u2.obj
+  | ⟨info, mv, msg, sub⟩, hpl, hD, attrs, s1, s2, u1, hs, h => by
+    rw [plainF, Bool.and_eq_true] at hpl
+    rw [allDroppedGoF] at hD
+    have he : info.parentIsOptionalEmbed = false := by simpa using hpl.1
+    unfold blockF at h ⊢
+    rw [pruneF_info]
+    simp only [] at h ⊢
+    by_cases hph : info.isPlaceholder = true
+    · simp only [hph, if_true] at h ⊢
+      injection h with h
+      subst h
+      exact ⟨s2, rfl, hs⟩
+    · simp only [hph, Bool.false_eq_true, if_false] at h ⊢
+      rw [copyFromField_pruneF]
+      rw [copyFromField] at h
+      refine fieldWith_frel D _ _ ov info mv msg attrs s1.diags s2.diags s1.hooks s2.hooks ?_ he s1.obj s2.obj u1 hs h
+      intro as d1 h1 d2 h2 t1 ht1
+      exact copyFromFields_deep D p ov sub hpl.2 hD as
+        { obj := resetOneOfs ((msg.map (·.oneOfNames)).getD []) (.struct []), diags := d1, hooks := h1 }
+        { obj := resetOneOfs ((msg.map (·.oneOfNames)).getD []) (.struct []), diags := d2, hooks := h2 }
+        t1 (OffG.refl _) ht1
+end
+
+
+/-- **`Copy<T>FromTerraform` of the pruned message, excluded field at any depth** (no children of nullable embedded
+messages, as in every IR built from a tree without embedded fields: `built_plain`). Whenever the converter of `m`
+succeeds, the converter of `prune p m` succeeds on the same inputs, and the two structs agree except in the Go fields the
+blocks of the removed nodes assign. -/
+theorem copyFrom_prune_deep (ov : List (String × String)) (p : String) (m : Msg) (tf : TfVal) (obj : GoVal)
+    (r1 : FromResult) (hpl : plainFs m.fields = true) (h : copyFrom ov m tf obj = .ok r1) :
+    ∃ r2, copyFrom ov (prune p m) tf obj = .ok r2 ∧ OffG (allDroppedGo p m.fields) r1.obj r2.obj := by
+  unfold copyFrom at h ⊢
+  cases tf with
+  | obj u n attrs atys =>
+    simp only [] at h ⊢
+    cases hf : copyFromFields ov m.fields attrs { obj := resetOneOfs m.info.oneOfNames obj } with
+    | panic w => rw [hf] at h; cases h
+    | stuck w => rw [hf] at h; cases h
+    | ok s1 =>
+      rw [hf] at h
+      injection h with h
+      subst h
+      obtain ⟨s2, h2, hoff⟩ := copyFromFields_deep (allDroppedGo p m.fields) p ov m.fields hpl (fun _ hx => hx) attrs
+        _ _ s1 (OffG.refl _) hf
+      simp only [prune, h2]
+      exact ⟨_, rfl, hoff⟩
+  | prim _ _ _ _ => cases h
+  | list _ _ _ _ => cases h
+  | map _ _ _ _ => cases h
+  | nilv => cases h
+  | foreign _ => cases h
+
+/-- **C11, converters, excluded field at any depth.** `cfg'` = `cfg` plus the path `p` in `exclude_fields`; no embedded
+fields in the tree; `p` addresses by path only; the root builds to `m` without the exclusion. Then it builds to
+`prune p m` with it, and - attribute names pairwise distinct and no nested message emptied, along the way
+(`distinctNames`, `deepOkFs`: decidable on `m`) - both converters of `prune p m` succeed whenever those of `m` do, with
+results that agree except under the excluded attribute / in the excluded Go field. -/
+theorem exclusion_surgical_deep (cfg : Config) (p : String) (req : Request) (desc : MsgD) (m : Msg)
+    (hne : NoEmbed req desc = true)
+    (htn : typeFree p (ctxKeys (defaultFuel req) req (rootCtx desc)) = true)
+    (hb : buildRoot cfg req desc = .ok (some m)) :
+    buildRoot { cfg with excludeFields := p :: cfg.excludeFields } req desc = .ok (some (prune p m)) ∧
+    (distinctNames m.fields = true → deepOkFs p m.fields = true → ∀ obj tf r1, copyTo m obj tf = .ok r1 →
+      ∃ r2, copyTo (prune p m) obj tf = .ok r2 ∧ OffV (allDroppedAttrs p m.fields) r1.tf r2.tf) ∧
+    (∀ ov tf obj r1, copyFrom ov m tf obj = .ok r1 →
+      ∃ r2, copyFrom ov (prune p m) tf obj = .ok r2 ∧ OffG (allDroppedGo p m.fields) r1.obj r2.obj) := by
+  have hplain : plainFs m.fields = true :=
+    (built_plain (viewOf cfg) req (noEmbedReq_spec (noEmbed_split hne).2) (defaultFuel req)).1
+      desc true "" m (noEmbedFields_spec (noEmbed_split hne).1) (buildRoot_inv hb)
+  exact ⟨exclusion_prunes_root cfg p req desc m hne htn hb,
+    fun hdn hok obj tf r1 h => copyTo_prune_deep p m obj tf r1 hdn hok h,
+    fun ov tf obj r1 h => copyFrom_prune_deep ov p m tf obj r1 hplain h⟩
 
 /-! ## 9. the statement on concrete trees (`decide`), and the hypotheses are necessary -/
 
@@ -1614,8 +2742,8 @@ example : (buildA cfgT).toOption.map (fun m => m.fields.all fun f =>
     levelOnly "A.b.s" f.sub && attrsSeparate "A.b.s" f.sub && plainFs f.sub) = some true := by decide +kernel
 example : (buildA cfgT).toOption.map (fun m => (m.fields.flatMap fun f => droppedAttrs "A.b.s" f.sub,
     m.fields.flatMap fun f => droppedGo "A.b.s" f.sub)) = some (["s"], ["S"]) := by decide +kernel
-/-- the side conditions of the open deep statements: fine for `A.b.s`; violated for `A.b.c.t` (`C` loses its last field) -/
-example : (buildA cfgT).toOption.map (fun m => deepOkFs "A.b.s" m.fields && attrsSeparate "A.b.s" m.fields) = some true := by
+/-- the side conditions of `copyTo_prune_deep`: fine for `A.b.s`; violated for `A.b.c.t` (`C` loses its last field) -/
+example : (buildA cfgT).toOption.map (fun m => deepOkFs "A.b.s" m.fields && distinctNames m.fields) = some true := by
   decide +kernel
 example : (buildA cfgT).toOption.map (fun m => deepOkFs "A.b.c.t" m.fields) = some false := by decide +kernel
 /-- a oneof branch: its CopyFrom block assigns the holder of the group -/
@@ -1649,6 +2777,17 @@ example : let cfg : Config := { cfgT with types := ["A"] }
     obtain ⟨r2, e, as1, as2, atys, e1, e2, ha, hb'⟩ := h4 obj tf r1 h
     rw [hD] at ha hb'
     exact ⟨r2, e, as1, as2, atys, e1, e2, fun key hk => ha key (by simpa using hk), hb' "b" (by simp)⟩
+
+/-- **`copyTo_prune_deep` / `copyFrom_prune_deep` instantiated**: `A.b.s` excluded, two levels down -/
+example (obj : GoVal) (tf : TfVal) (r1 : ToResult) (h : copyTo mA obj tf = .ok r1) :
+    ∃ r2, copyTo (prune "A.b.s" mA) obj tf = .ok r2 ∧ OffV ["s"] r1.tf r2.tf := by
+  have := copyTo_prune_deep "A.b.s" mA obj tf r1 (by decide +kernel) (by decide +kernel) h
+  rwa [show allDroppedAttrs "A.b.s" mA.fields = ["s"] by decide +kernel] at this
+
+example (tf : TfVal) (obj : GoVal) (r1 : FromResult) (h : copyFrom [] mA tf obj = .ok r1) :
+    ∃ r2, copyFrom [] (prune "A.b.s" mA) tf obj = .ok r2 ∧ OffG ["S"] r1.obj r2.obj := by
+  have := copyFrom_prune_deep [] "A.b.s" mA tf obj r1 (by decide +kernel) h
+  rwa [show allDroppedGo "A.b.s" mA.fields = ["S"] by decide +kernel] at this
 
 end Example
 
@@ -1691,6 +2830,13 @@ open PGT.Proofs.ExclusionPrune
 #print axioms schemaOf_prune
 #print axioms built_plain
 #print axioms exclusion_surgical_root
+#print axioms copyToFieldWith_rel
+#print axioms fieldWith_frel
+#print axioms copyToFields_deep
+#print axioms copyFromFields_deep
+#print axioms copyTo_prune_deep
+#print axioms copyFrom_prune_deep
+#print axioms exclusion_surgical_deep
 #print axioms Example.typeName_key_needed
 #print axioms Example.noEmbed_needed
 #print axioms Example.success_needed
